@@ -916,8 +916,15 @@ class Engine(ExprMixin, CallMixin):
                     res = val if (ctrl == 'return' and val is not None) else SNone()
                     s = self.ghost_exit(con, s, args, 'return', res)
                     c = Ctx(self, s, self.entry_state, args, result=res)
+                    aux = tuple(getattr(con, 'aux', ()) or ())
+                    chain = getattr(con, 'chain', False)
+                    sa = s
                     for label, b in con.ensures(c):
-                        self.oblige('post', 'ensures %s' % label, s, b, fnode)
+                        # `aux` clauses are representation lemmas (not part of the property): a refuted one only loses the
+                        # proof.  With `chain`, a clause may use the clauses stated before it (each is an obligation itself).
+                        self.oblige('post', 'ensures %s' % label, sa, b, fnode, inductive=any(a in label for a in aux))
+                        if chain:
+                            sa = sa.assume(b)
                     self.pending.append(PendingObl('must-fail', 'ensures False on a normal path', s.pc,
                                                    z3.BoolVal(False), s.trace))
                     self.frame_obligations(con, c, s, fnode, 'return')
